@@ -451,7 +451,9 @@ func (in *Interp) conv(fr *frame, tDst, tSrc types.Type, x value) value {
 					if res == nil {
 						return []value{}
 					}
-					return res
+					// (no spare capacity holding unset cells: the run time
+					// may round the capacity up, but then to zeroed runes)
+					return res[:len(res):len(res)]
 				}
 			case *types.Basic:
 				if d.Kind() == types.String {
